@@ -131,3 +131,29 @@ void inst_convert(LAFEM::Transfer<LAFEM::SparseMatrixCSR<double, Index>>& td, co
   td.convert(tf);
   gd.convert(mux, gf);
 }
+
+// generic inter-mesh transfer (assembled and matrix-free)
+#include <kernel/adjacency/graph.hpp>
+template<typename Mesh_, template<typename> class Elem_>
+void inst_intermesh()
+{
+  typedef Trafo::Standard::Mapping<Mesh_> TrafoT;
+  typedef Elem_<TrafoT> SpaceT;
+  Mesh_* mesh = nullptr;
+  TrafoT trafo(*mesh);
+  SpaceT space_t(trafo), space_s(trafo);
+  ScalarMatrix mat;
+  LAFEM::DenseVector<DT, IT> vec_t, vec_w, vec_s;
+  Adjacency::Graph trg2src;
+  String cub("x");
+  (void)Assembly::GridTransfer::assemble_intermesh_transfer(mat, vec_w, space_t, space_s, trg2src, cub);
+  (void)Assembly::GridTransfer::assemble_intermesh_transfer_direct(mat, space_t, space_s, trg2src, cub);
+  (void)Assembly::GridTransfer::transfer_intermesh_vector(vec_t, vec_w, vec_s, space_t, space_s, trg2src, cub);
+  (void)Assembly::GridTransfer::transfer_intermesh_vector_direct(vec_t, vec_s, space_t, space_s, trg2src, cub);
+}
+
+void inst_intermesh_all()
+{
+  inst_intermesh<Geometry::ConformalMesh<Shape::Hypercube<2>>, Space::Lagrange1::Element>();
+  inst_intermesh<Geometry::ConformalMesh<Shape::Simplex<3>>, Space::Lagrange2::Element>();
+}
